@@ -234,6 +234,14 @@ def build_synth(case, rnd):
             mol.add_edge(k, key[(r, rnd.choice(['A1', 'A2', 'A4']))])
         aid += 1
         decoy_nodes.append(k)
+    if case.get('flagged_first', case['nres'] % 4 == 1):
+        # the unrecognised atoms are stored ahead of the atoms of their residues (listed first in the file)
+        order = [n for n in mol.nodes if mol.nodes[n].get('PTM_atom')] + [n for n in mol.nodes if not mol.nodes[n].get('PTM_atom')]
+        new = Molecule(force_field=ff)
+        for n in order:
+            new.add_node(n, **mol.nodes[n])
+        new.add_edges_from(mol.edges(data=True))
+        mol = new
     return mol, planted, decoy_nodes
 
 
